@@ -27,7 +27,7 @@ CHECKS = {
     "C15": dict(
         technique="exhaustive enumeration of graph programs x build variants x round-trip operation sequences (depth-bounded) on real models with a never-round-tripped twin as differential oracle; enumerated invalid graphs",
         text="For every G-cache program (<=3 items quick, <=4 thorough, plus extras with groups, seeded and unnamed nodes) the model is built in six ways (all objects, sinks only, reversed, twice, copy=True, Model(grow=True), repeated copy build) and checked for completeness, unique names, outputs = inverse of inputs, reference edges and topological evaluation order; 17 invalid graphs (duplicate names, reserved names, node cycles, simulation cycles, shared nodes) must be rejected without harming an existing model. All operation sequences up to the tier's depth over {assign, auto-update off, pop+rebuild, copy+rebuild, deepcopy, save/load, every structural mutator on every node/var, set_seed} run on the real model next to a twin that never round-trips; states must agree after every step, copied-from originals must stay untouched and share no objects, every mutator must raise and change nothing.",
-        note="Depth 3 (quick: 2 for 3-item programs); values content-based so they compare across copies; group membership/role/info are not counted as structure. One open finding (seed nodes reset to the default key by pop/copy + rebuild) is listed in known_findings.txt with its exact history.",
+        note="Depth 3 (quick: 2 for 3-item programs); values content-based so they compare across copies; group membership/role/info are not counted as structure.",
         ref="3/C15",
     ),
     "C16": dict(
